@@ -17,6 +17,14 @@ Oracle: `model()` below - an exact-length slice, or the leftmost occurrence of t
 leftmost `re` match inside raw[o:o+W] - written from the property statement.  Compared on
 every execution: value of d, value of s2, end offset (through `unpack_impl` on a second
 packet), error/no-error (PacketError), and the bytes produced by pack().
+
+Second part (section "wrapped / nested declarations"): the same Data field carried by the
+wrappers a declaration can put around it - `.when(cond)` (true and false), `.repeated(count=)`,
+`.repeated(until=)`, a field of a sub-packet reached through `Ref(Sub)` whose class has its own
+search_buffer_length (plus a plain field of the outer class after it), an option of a run-time
+selected `Ref(key.chooses({...}))` (literal fields and a packet), and `.at()` / `.shift()`.
+Oracle: `wmodel()` - a sequential reference parse that calls `take()` (same rules as `model()`)
+at every place a Data value is read, with the window of the class that declares the field.
 """
 import hashlib
 import re
@@ -34,6 +42,20 @@ REQUIRED = (
     "later_occurrence_present", "marker_byte_in_s1", "overlapping_prefix_before_delimiter",
     "pack_compared", "pack_literal_delimiter_appended", "repack_roundtrip_value_preserved",
     "eos_compared", "classes_defined",
+    # wrapped / nested part
+    "wrapped_classes_defined", "wrapped_unpack_ok_compared", "wrapped_end_offset_compared",
+    "wrapped_s2_sentinel_compared", "wrapped_in_window_accepts", "wrapped_window_rejections",
+    "wrapped_window_rejections_when", "wrapped_window_rejections_rep_count", "wrapped_window_rejections_rep_until",
+    "wrapped_window_rejections_ref_sub_inner", "wrapped_window_rejections_ref_sub_outer_field_after_sub",
+    "wrapped_window_rejections_selector_packet", "wrapped_window_rejections_moved",
+    "wrapped_in_window_accepts_when", "wrapped_in_window_accepts_rep_count", "wrapped_in_window_accepts_rep_until",
+    "wrapped_in_window_accepts_ref_sub", "wrapped_in_window_accepts_selector", "wrapped_in_window_accepts_moved",
+    "wrapped_nested_accept_outer_window_would_reject", "wrapped_nested_reject_outer_window_would_accept",
+    "wrapped_straddling_window_edge", "wrapped_when_false_nothing_consumed", "wrapped_when_true_compared",
+    "wrapped_sequences_of_two_or_more", "wrapped_selector_key_0", "wrapped_selector_key_1", "wrapped_selector_key_2",
+    "wrapped_moved_forward", "wrapped_err_short_read_raised", "wrapped_err_negative_size_raised",
+    "wrapped_err_missing_delimiter_raised", "wrapped_pack_compared", "wrapped_pack_literal_delimiter_appended",
+    "wrapped_fresh_pack_compared", "wrapped_repack_roundtrip_values_preserved",
 )
 RULE = {
     "quick": "every class of the product {4 constants, field, 3 field expressions, 2 callables (+1 unjudged non-integer), "
@@ -44,8 +66,15 @@ RULE = {
              "second occurrences, truncations; sizes 0, exact, one short, negative) plus random strings over the marker "
              "alphabet private to each class, plus pack() of every parsed packet and of freshly built packets whose bytes are "
              "parsed again.  about 40k inputs.  A case is non-trivial when the input is long enough for the Data field to be reached "
-             "(s1 present); distinct = distinct (class, input) pairs.",
-    "thorough": "as quick, 16 shards with independent PRNG streams, about 1M inputs.",
+             "(s1 present); distinct = distinct (class, input) pairs.  "
+             "Wrapped part: 17 modes (5 sized, 5 bytes markers, 6 regex markers, EOS) x include_delimiter x 6 wrapper shapes "
+             "{when, repeated(count), repeated(until), Ref(Sub) with its own window + outer field, run-time selector "
+             "(2 literals + packet), at/shift} (19 variants, rotating) x windows {unset,0,2,4} / (outer,sub) pairs "
+             "{(unset,3),(3,unset),(2,5),(5,2),(0,3)} x 3 option sets (about 1700 classes + 640 sub-packet classes), 12 "
+             "seeded inputs each (element lengths around the window edge of either class, marker bytes in gaps and "
+             "sentinels, condition true/false, counts 0..3, truncations) plus 2 freshly built packets packed and parsed again; "
+             "about 23k inputs.  Non-trivial = both header bytes present.",
+    "thorough": "as quick, 16 shards with independent PRNG streams (and shifted variant rotation), about 1M + 0.7M inputs.",
 }
 ASSUMPTIONS = [
     "Python `re.search` on the window slice raw[o:o+W] is the specification of 'leftmost regex match within the window' "
@@ -56,6 +85,16 @@ ASSUMPTIONS = [
     "inputs too short for s1, or complete for Data but too short for s2, are Int's business (C04): counted, not judged",
     "a non-integer size (callable returning a float) is not fixed by the statement: counted, not judged",
     "Data(n) is only packed with values of exactly n bytes",
+    "wrapped part: `__bisturi__` options are per packet class (docs/reference/03_int_field.md, 04_data_field.md): fields of the "
+    "class itself - plain, .when(), .repeated(), .at()/.shift() - use the class's search_buffer_length, fields of a sub-packet "
+    "reached through Ref(Sub) (directly or as a selector option) use Sub's own",
+    "wrapped part: which window (if any) configures a *literal* Data handed out by a run-time selector is not documented: "
+    "such a case is judged only when the outer class's window and no window give the same result, otherwise counted "
+    "(selector_literal_window_unspecified_not_judged)",
+    "wrapped part: short input inside an Int header/sentinel, a selector key without option, a cursor moved beyond the input, "
+    "the bytes filling a gap made by .at()/.shift(), pack() of a field moved back over the header, and a repeated(until=) "
+    "that would never terminate (zero-length elements, not executed) are outside the property: counted, not judged",
+    ".repeated(until=) reads one or more elements (docs/reference/08_sequences.md); .when() false gives None and consumes nothing",
 ]
 
 OPTSETS = {
